@@ -61,6 +61,8 @@ impl Log {
 pub struct Handle {
     pub port: u16,
     stop: Arc<AtomicBool>,
+    /// the harness cut the connection while the puller was idle (`cut_now`)
+    forced: AtomicBool,
     conn: Arc<Mutex<Option<TcpStream>>>,
     th: Option<std::thread::JoinHandle<Log>>,
 }
@@ -72,9 +74,42 @@ impl Handle {
         if let Some(s) = self.conn.lock().unwrap().as_ref() {
             let _ = s.shutdown(Shutdown::Both);
         }
+        let forced = self.forced.load(Ordering::SeqCst);
         match self.th.take().unwrap().join() {
-            Ok(l) => l,
+            Ok(mut l) => {
+                if forced {
+                    l.cut = true;
+                    l.ended = "cut while the puller was idle".into();
+                }
+                l
+            }
             Err(_) => Log { ended: "server thread panicked".into(), ..Default::default() },
+        }
+    }
+    /// Cut the accepted connection NOW, whatever the server is doing (normally: blocked
+    /// reading the next request of a puller whose consumer is parked). Returns false when
+    /// no connection was accepted yet.
+    pub fn cut_now(&self) -> bool {
+        self.forced.store(true, Ordering::SeqCst);
+        match self.conn.lock().unwrap().as_ref() {
+            Some(s) => {
+                let _ = s.shutdown(Shutdown::Both);
+                true
+            }
+            None => false,
+        }
+    }
+    /// Wait (bounded) until the server thread has ended (it ends right after a cut).
+    pub fn wait_ended(&self, within: Duration) -> bool {
+        let deadline = Instant::now() + within;
+        loop {
+            if self.th.as_ref().map(|t| t.is_finished()).unwrap_or(true) {
+                return true;
+            }
+            if Instant::now() > deadline {
+                return false;
+            }
+            std::thread::sleep(Duration::from_micros(200));
         }
     }
 }
@@ -99,7 +134,7 @@ fn read_frame(s: &mut TcpStream, buf: &mut Vec<u8>) -> Result<Option<Frame>, Str
     }
 }
 
-fn to_message(f: &Frame) -> Message {
+pub fn to_message(f: &Frame) -> Message {
     Message::builder()
         .id(f.h.id)
         .notify(f.h.notify != 0)
@@ -110,7 +145,7 @@ fn to_message(f: &Frame) -> Message {
         .build()
 }
 
-fn error_frame(id: u64, query: &[u8], ec: u32, msg: &str) -> Frame {
+pub fn error_frame(id: u64, query: &[u8], ec: u32, msg: &str) -> Frame {
     let h = Hdr { version: 1, id, query_format: 1, body_format: 3, ec, ..Default::default() };
     Frame::new(h, query, msg.as_bytes())
 }
@@ -167,7 +202,7 @@ pub fn start(shared: &TcpListener, router: Router, script: Script, temp_path: Op
         drop(router); // releases the session table: a parked producer thread unblocks and ends
         log
     })?;
-    Ok(Handle { port, stop, conn, th: Some(th) })
+    Ok(Handle { port, stop, forced: AtomicBool::new(false), conn, th: Some(th) })
 }
 
 fn serve(
